@@ -40,6 +40,7 @@ type evmCfg struct {
 	NAcct     int
 	Nonces    int
 	Payloads  func(nonce int) int // payload variants per nonce
+	Commits   []string
 }
 
 func evmAlphabet(cfg evmCfg) []string {
@@ -52,7 +53,7 @@ func evmAlphabet(cfg evmCfg) []string {
 		}
 	}
 	a = append(a, "RX:0", "RX:1")
-	a = append(a, "C:E", "C:X", "C:A1", "C:A2", "C:B1", "C:A1B1", "C:ALL")
+	a = append(a, cfg.Commits...)
 	a = append(a, "F", "O")
 	return a
 }
@@ -66,6 +67,11 @@ type evmWorker struct {
 	dir     string
 	c       *evmkit.Chain
 	reopens int
+	// accounts whose state nonce is still 0 are handed to the next history
+	// together with the txs already signed for them (the pool is emptied
+	// between histories, so nothing else remembers them)
+	accts []*evmkit.Account
+	raws  []map[ethID][]byte
 }
 
 func newEvmWorker(cfg evmCfg, dir string) *evmWorker {
@@ -144,7 +150,11 @@ func (x *evmExec) ethRaw(e ethID) []byte {
 	if r, ok := x.raw[id]; ok {
 		return r
 	}
-	r := evmkit.Call(x.accts[e.Acct], e.Nonce, payloadTo, []byte{byte(e.Payload)})
+	r, ok := x.w.raws[e.Acct][e]
+	if !ok {
+		r = evmkit.Call(x.accts[e.Acct], e.Nonce, payloadTo, []byte{byte(e.Payload)})
+		x.w.raws[e.Acct][e] = r
+	}
 	x.raw[id] = r
 	x.idOf[string(r)] = id
 	x.m.ethOf[id] = e
@@ -156,9 +166,9 @@ func (x *evmExec) extRaw(k int) (txid, []byte) {
 	if r, ok := x.raw[id]; ok {
 		return id, r
 	}
-	// unique per history (the accounts are), so that nothing a previous history
-	// committed on this worker's chain can be confused with it
-	r := gtypes.TagAdminOPTx([]byte(fmt.Sprintf("{\"c19\":%d,\"for\":\"%x\"}", k, x.accts[0].Addr[:6])))
+	// unique per history, so that nothing a previous history committed on this
+	// worker's chain can be confused with it
+	r := gtypes.TagAdminOPTx([]byte(fmt.Sprintf("{\"c19\":%d,\"serial\":%d}", k, atomic.AddInt64(&acctCounter, 1))))
 	x.raw[id] = r
 	x.idOf[string(r)] = id
 	return id, r
@@ -239,9 +249,6 @@ func (x *evmExec) sizeCheck() int {
 	if sz < 0 {
 		x.find("ethTxPool.Size", "size-negative", "", fmt.Sprintf("Size()=%d", sz))
 	}
-	if x.m.flushed && sz != 0 {
-		x.find("ethTxPool.Flush", "flush-incomplete", "size", fmt.Sprintf("Size()=%d right after Flush", sz))
-	}
 	return sz
 }
 
@@ -258,9 +265,6 @@ func (x *evmExec) observe() string {
 	v, _, ok := x.reap(-1)
 	if !ok {
 		return "dead"
-	}
-	if x.m.flushed && len(v.IDs) != 0 {
-		x.find("ethTxPool.Flush", "flush-incomplete", "reap", fmt.Sprintf("Reap(-1) offers %d txs right after Flush", len(v.IDs)))
 	}
 	b.WriteString("rall=" + x.canonReap(v) + ";")
 	fmt.Fprintf(&b, "size=%d;", x.sizeCheck())
@@ -444,6 +448,16 @@ func (x *evmExec) apply(letter string) string {
 			return "dead"
 		}
 		x.m.flush()
+		// "Remove all transactions from tx and cache": checked at once (an
+		// emptied pool has no sort caches an observer could fill)
+		var sz int
+		var left []gtypes.Tx
+		if !x.guard("Size", func() { sz = x.pool.Size(); left = x.pool.Reap(-1) }) {
+			return "dead"
+		}
+		if sz != 0 || len(left) != 0 {
+			x.find("ethTxPool.Flush", "flush-incomplete", "", fmt.Sprintf("right after Flush: Size()=%d, Reap(-1) offers %d txs", sz, len(left)))
+		}
 		return "flushed"
 	case "O":
 		return "obs"
@@ -538,7 +552,7 @@ func (x *evmExec) canon() string {
 	sort.Strings(s.PI)
 	sort.Strings(s.All)
 	s.N = x.m.nonce
-	return fmt.Sprintf("P%v W%v I%v all%v ext%v n%v", s.P, s.W, s.PI, s.All, s.Ext, s.N)
+	return fmt.Sprintf("P%v W%v I%v all%v ext%v n%v | model %s", s.P, s.W, s.PI, s.All, s.Ext, s.N, x.m.key())
 }
 
 // runEvm executes prefill+history on the worker's real application and pool.
@@ -548,12 +562,29 @@ func runEvm(w *evmWorker, hist []string, mode string) *execResult {
 	w.fresh(false)
 	nAcct := w.cfg.NAcct
 	x := &evmExec{w: w, pool: w.c.App.GetTxPool(), addrI: map[common.Address]int{}, raw: map[txid][]byte{}, idOf: map[string]txid{}, res: res}
-	base := int(atomic.AddInt64(&acctCounter, int64(nAcct))) - nAcct
 	for i := 0; i < nAcct; i++ {
-		a := evmkit.Key(1000 + base + i)
+		if i >= len(w.accts) {
+			w.accts = append(w.accts, nil)
+			w.raws = append(w.raws, nil)
+		}
+		if w.accts[i] == nil {
+			w.accts[i] = evmkit.Key(1000 + int(atomic.AddInt64(&acctCounter, 1)))
+			w.raws[i] = map[ethID][]byte{}
+		}
+		a := w.accts[i]
 		x.accts = append(x.accts, a)
 		x.addrI[a.Addr] = i
 	}
+	defer func() {
+		// retire every account the application has seen a tx of
+		for i, a := range x.accts {
+			used := true
+			core.Try(func() { used = w.c.Nonce(a.Addr) != 0 })
+			if used {
+				w.accts[i] = nil
+			}
+		}
+	}()
 	snap := w.c.App.VerifPoolSnapshot()
 	x.m = newPoolModel(nAcct, snap.PendingLimit, snap.WaitingLimit)
 	if snap.PendingLimit != 10*w.cfg.BlockSize || snap.WaitingLimit != 10*w.cfg.BlockSize {
